@@ -9,17 +9,22 @@ VERIF = Path(__file__).resolve().parent.parent
 TECH = ('Lean 4 model + kernel-checked theorems (unbounded) + regenerated tables + differential '
         'correspondence against the running code')
 
-# property id -> (level text, level note, design ref)
-CLAIMED = {
-    'C17': ('Lean theorems over a statement-by-statement model of text.py: closed forms of LEFT/RIGHT/MID/'
-            'REPLACE for every text, position and count; FIND is the first occurrence >= start; the five '
-            'algebraic laws of the statement, clipping, zero counts and the error cases. The model is tied to '
-            'the running code by an exhaustive small-domain plus random differential run (direct calls and '
-            'through formulas).',
-            'Trusted: Lean kernel (axioms propext, Classical.choice, Quot.sound), the hand-written model '
-            '(validated by correspondence, not proved equal to the Python), Python str.upper/lower for '
-            'non-ASCII, argument coercion (C08).', '§4 C17'),
-}
+
+
+def module_consts(path):
+    """LEVEL_TEXT / LEVEL_NOTE / DESIGN_REF string constants of a property module (read with ast, so
+    the module is not imported)."""
+    import ast
+    out = {}
+    tree = ast.parse(path.read_text())
+    for node in tree.body:
+        if isinstance(node, ast.Assign) and len(node.targets) == 1 and isinstance(node.targets[0], ast.Name):
+            try:
+                out[node.targets[0].id] = ast.literal_eval(node.value)
+            except Exception:
+                pass
+    return out
+
 
 NOT_YET = 'check not built yet in this session (framework under construction); see DESIGN.md §4'
 
@@ -31,8 +36,10 @@ def main():
     checks, na = [], []
     for p in props:
         pid = p['id']
-        if pid in CLAIMED and (VERIF / 'harness' / 'props' / f'{pid.lower()}.py').exists():
-            text, note, ref = CLAIMED[pid]
+        mod = VERIF / 'harness' / 'props' / f'{pid.lower()}.py'
+        consts = module_consts(mod) if mod.exists() else {}
+        if consts.get('LEVEL_TEXT') and consts.get('CLAIM', True):
+            text, note, ref = consts['LEVEL_TEXT'], consts.get('LEVEL_NOTE', ''), consts.get('DESIGN_REF', '')
             checks.append({
                 'property_id': pid,
                 'quick_cmd': f'./check {pid} --tier quick',
@@ -45,7 +52,7 @@ def main():
                 'technique': TECH,
             })
         else:
-            na.append({'property_id': pid, 'reason': NOT_YET})
+            na.append({'property_id': pid, 'reason': consts.get('NOT_APPLICABLE_REASON', NOT_YET)})
     manifest = {
         'version': 1,
         'setup_cmd': './setup.sh',
